@@ -42,7 +42,7 @@ def run(tier):
                        timeout=1200 if tier == "quick" else 5400, into=hr)
         rc.report_fails(v, hr, tier, extra={"witness_sha256": sha0})
 
-        if hr.stat("gen_runs") == 0 or hr.stat("table_entries") == 0:
+        if not hr.crashed and (hr.stat("gen_runs") == 0 or hr.stat("table_entries") == 0):
             raise vlib.ToolFailure("harness executed nothing")
         variants_run = hr.stat("gen_variants_run") // n
         nd_values = hr.stat("gen_nd_values") // n
@@ -73,6 +73,7 @@ def run(tier):
             "nd_values": nd_values,
             "data_bytes_fed": hr.stat("gen_data_bytes"),
             "harness_failures": hr.stat("failures"),
+            "harness_shards_stopped_by_crash": hr.crashed,
             "tlc_witness_jobs": res.distinct // 2,
             "states": res.distinct,
             "tlc_generated": res.generated,
